@@ -23,6 +23,15 @@ CHECKS = {
    note="mailboxes of up to 4 messages; key depth <= 2 (quick, plus a depth-3 sample) / <= 3 (thorough); gluon choices adopted: internal date = UTC date, sent date = date as written",
    technique="TLA+ evaluator + TLC enumeration of key trees; wire SEARCH / UID SEARCH compared with TLC's sets", design="DESIGN.md section 5 C15"),
 
+ "C11": dict(level="exploration",
+   text="GluonSession.tla (line classes): 9 malformed complete-line classes, 7 'odd' classes (control characters in quoted strings, {0}, literal above the cap, SEARCH nesting 10 / 1000 / 10^6, 1 MB atom), 4 cut-off stream classes (end of stream inside a quoted string, a literal, a token; raw TLS hello) and a few valid commands incl. IDLE/DONE/STARTTLS, from every protocol phase; for every (phase, input) the acceptable completion classes, the tag the completion must carry, whether the server closes, and the consecutive-error counter (ErrorCounter, OneCompletionPerLine, UsableAfterError, OthersUnaffected are checked by TLC); TLC enumerates every class sequence of the bounded length and the whole graph of the error counter; each class occurrence is rendered as seeded concrete bytes and sent to a child-process server: exactly one completion per complete line with the line's tag, session usable afterwards, connection closed exactly at the 20th consecutive error, a second user's session answers NOOP after every line, the process neither dies nor spins (CPU clock of the child after the client vanished) nor grows (+300 MiB resident during one line)",
+   note="classes and class sequences (length 2 quick / 3 thorough) are exhaustive, the bytes inside a class are sampled with the seed; heavy lines only as first line; time-outs are generous and a clock verdict is confirmed by re-running the sequence alone on a fresh server before it counts",
+   technique="TLA+ session/line-class spec + TLC enumeration of class sequences; replay as bytes on a child-process server with CPU / RSS / liveness watchdogs", design="DESIGN.md section 5b C11"),
+ "C18": dict(level="model_checking",
+   text="GluonSession.tla: two users with identically named mailboxes, phases NotAuth / Auth / Selected (read-write, read-only, IDLE) / Closed, 46 command classes, the outcome relation (acceptable result classes, next phase, effect class = which namespace / mailbox of which user MAY change), one server-wide counter of consecutive failed logins and the jail; action properties Gate, Isolation, WrongCredsNeverAuth, Jail are checked by TLC exhaustively; four families (matrix: every command in every phase; pairs: two sessions of different / the same user; jail: every credential class around the third failure with model ticks; phases: every input sequence of the bounded length) - every transition TLC prints is executed over the wire on a real two-user server by covering tours, and after every step LIST, LSUB, STATUS and FETCH 1:* (UID FLAGS SUBJECT) of every mailbox of BOTH users are compared with the projection before the step: only the components named by the effect class may differ; jail: a LOGIN after the third consecutive failure is answered no earlier than the configured jail time (monotonic clock, lower bound only)",
+   note="one fixed instance per command class spelled several ways (case, atom / quoted / literal); credentials near the real ones; not explored: DELETE / RENAME / expunge of a mailbox another session of the same user has selected (C01/C02/C14 cover those), STARTTLS on a server with TLS",
+   technique="TLA+ session spec + TLC exhaustive state graph with printed transitions; covering tours replayed over the wire on a two-user server with full projection of both users after every step", design="DESIGN.md section 5b C18"),
+
  "C07": dict(level="fault_enumeration",
    text="GluonCrash.tla models 16 operations (APPEND, COPY, MOVE, EXPUNGE, STORE, CREATE, DELETE, RENAME, SUBSCRIBE, UNSUBSCRIBE, MOVE/COPY out of the recovery mailbox, connector MessagesCreated / MessageUpdated / MessageDeleted, session release) as their real step lists (every store call, BEGIN, every transaction method, COMMIT) with Crash, FailStep, Recover; invariants AckedSurvives, BeforeOrAfter, AppendNeverLost, EveryListedFetchable, NoOrphans; TLC enumerates every (operation, step, kill|error) triple - the fault plan - with the allowed post-recovery states; each triple is executed in a child process with the store and the database wrapped (generated delegating wrapper for all 74 transaction methods) that kills itself or fails the call at step k; a fresh server on the same directories is compared (LIST, LSUB, UIDVALIDITY, UIDNEXT, FETCH with exact bytes, rows marked deleted, orphan files) with the allowed states; a step list that differs from the spec's is reported as spec out of date (exit 2)",
    note="kill = SIGKILL at a step boundary (not power loss; SQLite WAL); plain read transactions are not step boundaries; connector operations run while the only session watches an untouched mailbox; \\Recent not compared",
@@ -45,7 +54,7 @@ CHECKS = {
 
  "C17": dict(level="model_checking",
    text="GluonCore.tla with limit constants (MaxMsgs, LimitUid): invariant WithinLimits, action property FailedIsNoop (a refused step changes no mailbox), refused connector updates are all-or-nothing; TLC model-checks a bounded configuration exhaustively and generates behaviours that approach the limits (appends, multi-message COPY/MOVE, connector adds) which are replayed on a server configured with the same limits; after every step every mailbox is read through a new session: it must equal the model and never exceed the limits, refusals must come exactly when the model refuses",
-   note=CORE_NOTE + "; limits 2 messages per mailbox / UID below 5; the UID limit is exclusive as implemented; the mailbox-count limit (CREATE with implicit parents) is checked in the namespace module; the check-then-insert race of two concurrent APPENDs is not covered by gated replay",
+   note=CORE_NOTE + "; limits 2 messages per mailbox / UID below 5; the UID limit is exclusive as implemented; the mailbox-count limit (CREATE / RENAME with implicit parents, connector creations; limit 4) is checked with GluonNamespace.tla's Limit family inside this check; concurrent APPENDs around one free slot: every interleaving of GluonAppendRace.tla (check / insert as separate steps, 2-3 appenders) is forced on the real server with the parking hook append.checked",
    technique="TLA+ spec with limit constants + TLC; gated replay on a server configured with the same limits; per-step database comparison", design="DESIGN.md section 5 C17"),
 
  "C19": dict(level="model_checking",
